@@ -1660,7 +1660,7 @@ class Exec:
         self.frames.append([])
         self.exec_region(f, set(rpo), entry, {entry: [st0]}, rets, None, loops, idx)
         dead = self.frames.pop()
-        if dead and self.depth > 1:
+        if dead and self.depth > 1 and not os.environ.get('LLSYM_NO_FRAMES'):
             # the callee's stack slots die with the call: drop them so that later joins do not merge them
             out = []
             for g, v, mem in rets:
@@ -1734,7 +1734,7 @@ class Exec:
             if not back:
                 return
             total += 1
-            concrete = len(back) == 1 and g_in is not None and back[0].g is g_in
+            concrete = len(back) == 1 and g_in is not None and back[0].g is g_in and not os.environ.get('LLSYM_OLD_LOOP')
             if not concrete:
                 sym_iters += 1
             if sym_iters > self.K or total > 20000:
@@ -2085,7 +2085,7 @@ class Exec:
     def intrinsic(self, st, ins, name, args, argv):
         env = st.env
         n = name
-        if n.startswith('@llvm.lifetime'):
+        if n.startswith('@llvm.lifetime') and not os.environ.get('LLSYM_NO_LIFETIME'):
             # the slot's content is dead before lifetime.start and after lifetime.end: make it undef so that
             # joins have nothing to merge for it
             pv = argv[-1]
